@@ -4,7 +4,7 @@ import json, sys, os
 sys.path.insert(0, os.path.dirname(os.path.abspath(__file__)))
 from checkspec import PROPS, COMMON_TRUSTED
 
-hooks = ["c743cec", "d0b637e"]
+hooks = ["c743cec", "d0b637e", "158ed7d", "65ace8c"]
 checks = []
 for pid, sp in sorted(PROPS.items()):
     thms = [t for ts in sp.get("theorems", {}).values() for t in ts]
